@@ -69,6 +69,16 @@ func VerifDir() string {
 	return "/verif"
 }
 
+// evidenceDir is /verif/evidence unless VERIF_EVIDENCE_DIR redirects it (used
+// when the checks are pointed at a deliberately broken tree, so that the
+// committed evidence is only ever written by runs against the real tree).
+func evidenceDir(verif string) string {
+	if d := os.Getenv("VERIF_EVIDENCE_DIR"); d != "" {
+		return d
+	}
+	return filepath.Join(verif, "evidence")
+}
+
 func Seed() int64 {
 	s := os.Getenv("VERIF_SEED")
 	if s == "" {
@@ -176,7 +186,7 @@ func (r *Run) Violate(key string, detail any) {
 		return
 	}
 	v := Violation{Key: key, Detail: detail}
-	dir := filepath.Join(r.verifDir, "evidence", "replay")
+	dir := filepath.Join(evidenceDir(r.verifDir), "replay")
 	_ = os.MkdirAll(dir, 0o755)
 	p := filepath.Join(dir, fmt.Sprintf("%s-%d-%d.json", r.ID, r.Seed, len(r.violations)))
 	b, _ := json.MarshalIndent(map[string]any{
@@ -261,8 +271,8 @@ func (r *Run) Finish() int {
 		"violations":  nviol,
 	}
 	b, _ := json.MarshalIndent(evd, "", " ")
-	_ = os.MkdirAll(filepath.Join(r.verifDir, "evidence"), 0o755)
-	evp := filepath.Join(r.verifDir, "evidence", r.ID+".json")
+	_ = os.MkdirAll(evidenceDir(r.verifDir), 0o755)
+	evp := filepath.Join(evidenceDir(r.verifDir), r.ID+".json")
 	if err := os.WriteFile(evp, append(b, '\n'), 0o644); err != nil {
 		fmt.Printf("INCONCLUSIVE property=%s cannot write evidence: %v\n", r.ID, err)
 		return 2
